@@ -46,14 +46,14 @@ def gen_set(r):
     specs = []
     for i in range(r.randrange(1, 6)):
         kinds = sorted(r.sample(KINDS, r.randrange(1, 4)))
-        sp = {"name": "Cp%d" % i, "kinds": kinds, "order": r.choice((0, 0, 1, 5, -3, None, "raise")),
+        sp = {"name": "Cp%d" % i, "kinds": kinds, "order": r.choice((0, 0, 1, 5, -3, None, "raise", "1", 2.5, "first")),
               "active": r.choice((True, True, True, True, False, "raise")), "ctor_raise": r.random() < 0.08,
               # what goes wrong at import: nothing / the module is missing / the module imports but has no such class /
               # the name is not a dotted path at all
               "import_ok": r.choice((True,) * 11 + ("no-module", "no-class", "no-dot"))}
         if sp["active"] is True and r.random() < 0.3:
             # switched off (or explicitly on) through the PLUGIN_<NAME> setting, in any of the forms a user may write
-            sp["switch"] = r.choice(("false", "False", "no", "0", False, 0, "", "true", "True", "yes"))
+            sp["switch"] = r.choice(("false", "False", "no", "0", False, 0, "", "true", "True", "yes", True, 1))
         specs.append(sp)
     return specs
 
@@ -93,7 +93,8 @@ def _expected_order(specs, python_plugin):
         if "switch" in sp and str(sp["switch"]).lower() not in ("true", "yes", "t", "1", "y"):
             continue        # switched off by configuration
         o = sp["order"]
-        items.append((sp["name"], o if isinstance(o, int) else 0))
+        # a value that is not a number cannot be a sort key among numbers: default order, like a failing order()
+        items.append((sp["name"], o if isinstance(o, (int, float)) else 0))
     return [n for n, _ in sorted(items, key=lambda x: x[1])]
 
 
@@ -115,7 +116,7 @@ def execute(s, ch):
             for sp in s["specs"]:
                 d = {"name": sp["name"], "kinds": sp["kinds"], "decorate": {"deco_" + sp["name"]: sp["name"]},
                      "resource": {"res_" + sp["name"]: sp["name"]}}
-                if isinstance(sp["order"], int) or sp["order"] is None:
+                if sp["order"] != "raise":
                     d["order"] = sp["order"]
                 if sp["active"] is not True and sp["active"] != "raise":
                     d["active"] = sp["active"]
